@@ -60,6 +60,16 @@ CHECKS = {
              "program level: orders 2-4, n<=6, finitely supported programs only.",
         design="DESIGN.md section 4 C11",
     ),
+    "C13": dict(
+        technique="property-based testing: generated (family, parameters, exponent triple) requests and template programs with Sin/Cos/Exp assignments, mpmath quadrature of the defining integral as oracle",
+        text="Generated-input search: direct calls of FunctionalAssignment.get_func_moment / get_const_moment for all families with a cf/mgf, exponents 0..4 "
+             "(frequency 0 included), exponential powers at and beyond the mgf boundary (must be rejected), mixed Exp x Sin/Cos requests (must be rejected or right), "
+             "both exact_func_moments settings; and generated programs with functional assignments of draws, references and constants, inside branches, whose closed "
+             "forms are compared with the reference interpreter using quadrature-based joint moments for n=0..4.",
+        note="Trusted base: Hypothesis, mpmath quadrature at 40 digits with densities from lib/distref.py, lib/refsem.py. Tolerances: exact mode 1e-20, rounded mode 1e-18 "
+             "(single moments) / 1e-14 (program results), TruncNormal 1e-9.",
+        design="DESIGN.md section 4 C13",
+    ),
 }
 
 PENDING = {}
